@@ -32,6 +32,11 @@ ASSUMPTIONS = ["concentration = solute amount / size of whole mixture in the den
                "base-unit ratio; ratios below 1e-7 not generated",
                "solute != solvent, no duplicate solutes, solvent container does not hold a named solute",
                "ill-conditioned systems (cond > 1e9) are excluded and counted"]
+def shard_config(shard, tier):
+    """two of eight shards run under storage units whose prefixes differ from each other (documented settings)"""
+    return {6: {'moles_storage_unit': 'mmol'}, 7: {'volume_storage_unit': 'nL', 'moles_storage_unit': 'umol'}}.get(shard % 8)
+
+
 REQUIRED_CLASSES = {'quick': ['which:ct', 'which:cq', 'which:qt', 'solvent:substance', 'solvent:container',
                               'outcome:returned', 'outcome:ValueError'],
                     'thorough': ['which:ct', 'which:cq', 'which:qt', 'solvent:substance', 'solvent:container',
@@ -86,7 +91,8 @@ def solve_reference(cfg, ref, solutes, solvent, spec):
         return None, 'singular'
     try:
         cond = numpy.linalg.cond(As / colscale[None, :])
-        if not math.isfinite(cond) or cond > 1e9:
+        cond_rows = numpy.linalg.cond(As)       # the library equilibrates rows only
+        if not math.isfinite(cond) or cond > 1e9 or not math.isfinite(cond_rows) or cond_rows > 1e8:
             return None, 'ill-conditioned'
         x = numpy.linalg.solve(A, b)
     except numpy.linalg.LinAlgError:
@@ -134,7 +140,26 @@ def run_case(col, pp, cfg, case):
     container_solvent = 'c' in case['solvent']
     col.label(f"solvent:{'container' if container_solvent else 'substance'}")
     if container_solvent:
-        cont = pp.Container('stock', initial_contents=[(R[i], q) for i, q in case['solvent']['c']])
+        members = case['solvent']['c']
+        if case['solvent'].get('aged') and len(members) > 1:
+            # the same mixture reached through a history: the first member alone is used as the solvent of a
+            # throw-away solution, then the other members are poured in.  What create_solution does with a container
+            # depends on what it holds now, not on how it got there (the reference reads the final contents).
+            cont = pp.Container('stock', initial_contents=[(R[members[0][0]], members[0][1])])
+            try:
+                prime = R[case['solutes'][0]]
+                cont = pp.Container.create_solution(prime, cont, 'prime', quantity='1 U' if prime.is_enzyme() else '1 umol',
+                                                    total_quantity=f"{cont.volume * 0.01 * cfg.vol_mult / 1e-6:.6f} uL")[0]
+                col.label('solvent:container-used-as-solvent-before')
+            except Exception:  # noqa  (the priming call is not judged here)
+                pass
+            try:
+                for i, q in members[1:]:
+                    cont = pp.Container.transfer(pp.Container('more', initial_contents=[(R[i], q)]), cont, q)[1]
+            except Exception:  # noqa
+                cont = pp.Container('stock', initial_contents=[(R[i], q) for i, q in members])
+        else:
+            cont = pp.Container('stock', initial_contents=[(R[i], q) for i, q in members])
         cview = bench.view_container(cont)
         cbase = world.base(cview)
         solvent_p = Pseudo(ref, base=cbase)
@@ -294,6 +319,8 @@ def cases(draw, cfg):
             contents.append([i, q.text])
             cbase[sub.name] = float(q.value) / sub.factor(fam)
         solvent = {'c': contents}
+        if len(contents) > 1 and draw(st.booleans()):
+            solvent['aged'] = True
         stot = ref.size(cbase, 'L')
         mix = {nm: a / stot * vtot for nm, a in cbase.items()}
     else:
